@@ -122,6 +122,11 @@ func checkC10(p *core.Program, r *core.Report) {
 			}
 		case callNameHasSuffix(t, "encoding/json.Marshal") && len(t.Args) == 1:
 			marshalArg = eev.Resolve(t.Args[0])
+			// a conversion helper returning (wire, error): on the path that reaches json.Marshal the error was nil, so the
+			// zero value of the helper's failing return is not what is marshalled
+			for marshalArg.K == tf.KIte && len(marshalArg.Args) == 3 && strings.Contains(describe(marshalArg.Args[0]), "!= nil") && marshalArg.Args[1].K == tf.KZero {
+				marshalArg = eev.Resolve(marshalArg.Args[2])
+			}
 			if marshalArg.K == tf.KRecord {
 				wireT = namedOf(marshalArg.Type)
 			}
@@ -137,8 +142,10 @@ func checkC10(p *core.Program, r *core.Report) {
 	emptyBuf := rawBuf != nil && (rawBuf.K == tf.KAlloc || rawBuf.K == tf.KZero)
 	if !emptyBuf && rawBuf != nil {
 		for _, e2 := range eev.Events() {
-			if callNameHasSuffix(e2.Term, "bytes.Buffer).Reset") && len(e2.Term.Args) == 1 && tf.Eq(e2.Term.Args[0], rawBuf) && instrBefore(e2.Instr, rawInstr) {
-				if on, inLoop := e2.OnEveryPathToReturn(); on || !inLoop {
+			if callNameHasSuffix(e2.Term, "bytes.Buffer).Reset") && len(e2.Term.Args) == 1 && tf.Eq(e2.Term.Args[0], rawBuf) && instrBefore(e2.OuterInstr(), rawInstr) {
+				// (a Reset inside an inlined helper such as getScratchBuffer() is ordered by its call site, and must lie on
+				// every path of that helper)
+				if on, inLoop := e2.OnEveryPathToReturn(); on || (!inLoop && e2.Instr == e2.OuterInstr()) {
 					emptyBuf = true
 				}
 			}
